@@ -93,6 +93,15 @@ func oracleC05(x *Exec) []verdict {
 			}
 		}
 		if openAt < 0 {
+			if s.Repeat {
+				// no iteration was in progress when the stop was accepted: it must not be repeated again
+				for _, si := range st.starts {
+					if si >= acc && x.Events[si].Canceled {
+						out = append(out, verdict{"C05/stop/repeating-step-repeated-after-stop", fmt.Sprintf("%s started another iteration (event %d) after the stop had been accepted between two iterations: %s", s.Name, si, x.trace())})
+						break
+					}
+				}
+			}
 			continue
 		}
 		endIdx := len(x.Events)
